@@ -565,6 +565,13 @@ def check_C07(tier, replay):
                                                            "aShare commitment to the MAC vector", "LaAND e bit", "HaAND bits",
                                                            "masked value for a non-input register")
                             and x["devs"][0].get("k") == 0]
+                    # ... and the two-position alterations of values that are opened offset by the key when the claim is
+                    # wrong (an aggregated check lets them cancel: the run goes on with the offset values on the wire)
+                    seen2 = set()
+                    for x in scs:
+                        if x["what"] in ("two LaAND e bits", "two aShare check bits") and x["what"] not in seen2:
+                            seen2.add(x["what"])
+                            keep.append(x)
                     rest = [x for x in scs if x not in keep]
                     scs = keep + rng.sample(rest, min(10, len(rest)))
                 for i, sc in enumerate(scs):
